@@ -16,3 +16,6 @@ var driverErrors = []error{
 	sqlite3.Error{Code: sqlite3.ErrCorrupt},
 	sqlite3.Error{Code: sqlite3.ErrReadonly},
 }
+
+// errSQLiteBusy is what mattn/go-sqlite3 reports when another connection or process holds a lock past the busy timeout.
+var errSQLiteBusy error = sqlite3.Error{Code: sqlite3.ErrBusy}
